@@ -103,6 +103,8 @@ C03_EstablishedSoundness(cfg, obs) ==
        /\ obs[a].ident = obs[c].ident
        /\ obs[a].cred = obs[c].cred
        /\ obs[c].id = "right"
+       \* (the library's own per-scheme dispatcher never accepts a reply that presents nothing at all)
+       /\ (cfg.flavour = "server" => obs[c].cred # "")
        /\ obs[c].scheme \in SchSet(obs[q].sopts)
        /\ obs[c].scheme \in cfg.schemes
        /\ obs[r].res = "ok"
